@@ -2,7 +2,7 @@
 # tools/seedbatch.sh <ID> [extra seedcheck args]: evaluates /tmp/s3-<ID>-out/{1,2,3} as seeded/<ID>-{3,4,5}
 id=$1; shift
 for k in 1 2 3; do
-  [ -f /tmp/s3-$id-out/$k/patch.diff ] || continue
-  echo "##### $id-$((k+2))"
-  python3 /verif/tools/seedcheck.py $id $((k+2)) --src /tmp/s3-$id-out/$k "$@" 2>&1 | grep -v "^    \|^  File" | cut -c1-260
+  [ -f /tmp/${SB:-s3}-$id-out/$k/patch.diff ] || continue
+  echo "##### $id-$((k+${OFF:-2}))"
+  python3 /verif/tools/seedcheck.py $id $((k+${OFF:-2})) --src /tmp/${SB:-s3}-$id-out/$k "$@" 2>&1 | grep -v "^    \|^  File" | cut -c1-260
 done
